@@ -282,7 +282,7 @@ func init() {
 	fw.Register(&fw.Check{
 		ID:    "C02",
 		Level: "model_checking",
-		Rule: "(a) every token sequence of length 1..4 over the full 39-token vocabulary (incl. quoted identifiers that spell a keyword, an operator or a bracket); (b) every sequence up to the length bound over a representative 18-token alphabet (one operator per precedence level, every bracket, comma and keyword); (c) the complete single-edit neighbourhood (insert/delete/replace by any vocabulary token, swap, duplicate) of valid sentences of <=9 tokens generated from C01's trees; (d) seven families of deep nestings and long chains (parentheses, operator chains, nested calls, nested indexes, long argument lists, nested unary minus, postfix chains) at 13 sizes up to 257, each valid and with one defect in the middle; rendered with single blanks and parsed end-to-end with ParseString; " +
+		Rule: "(a) every token sequence of length 1..4 over the full 40-token vocabulary (incl. quoted identifiers that spell a keyword, an operator or a bracket); (b) every sequence up to the length bound over a representative 18-token alphabet (one operator per precedence level, every bracket, comma and keyword); (c) the complete single-edit neighbourhood (insert/delete/replace by any vocabulary token, swap, duplicate) of valid sentences of <=9 tokens generated from C01's trees; (d) seven families of deep nestings and long chains (parentheses, operator chains, nested calls, nested indexes, long argument lists, nested unary minus, postfix chains) at 13 sizes up to 257, each valid and with one defect in the middle; rendered with single blanks and parsed end-to-end with ParseString; " +
 			"oracle: an independent recursive-descent recogniser — accept iff sentence, accepted => ResultTokens = post-order of the unique tree, rejected => ApplicationError with a code, never a panic; a trailing comma in an argument list is unspecified; non-trivial = valid sentences",
 		Assume: []string{"the recogniser is cross-checked against the sentence generator/printer in C01 (every printed tree must be recognised as its own tree)", "tokenization of single tokens separated by blanks is as C13 establishes"},
 		Spaces: func(tier string) []fw.Space {
